@@ -126,6 +126,7 @@ func (v *Verifier) VerifyFunc(fc *FuncContract) {
 	ex.TypeHolds = defaultTypeHolds
 	ex.AssumeNonNil = defaultAssumeNonNil
 	ex.SummaryHook = v.summaryHook(fc)
+	ex.GhostHook = v.ghostHook()
 	v.Verified[fc.Key] = true
 	if fc.Options["unroll"] != "" {
 		fmt.Sscanf(fc.Options["unroll"], "%d", &ex.Unroll)
@@ -154,6 +155,9 @@ func (v *Verifier) VerifyFunc(fc *FuncContract) {
 	v.Obls = append(v.Obls, &Obligation{Name: obligationName(fc, "requires_sat"), Func: fc.Key, Label: "requires_sat", Kind: "requires_sat", Hyps: reqHyps, Goal: TTrue, WantSat: true})
 
 	outs := ex.Explore(fn, st, fargs, bind, 0)
+	for _, o := range outs {
+		ex.GhostHook(ex, fn, fargs, o.St, 0)
+	}
 	rep.Paths = len(outs)
 	rep.Aborted = ex.Aborted
 	for k := range ex.UsedEnv {
@@ -225,6 +229,9 @@ func (v *Verifier) VerifyFunc(fc *FuncContract) {
 					continue
 				}
 				ob.Goal = Or(ex2, ob.Goal)
+				if goal == TTrue || ex2 == TFalse {
+					continue // nothing can fail inside the region on this path
+				}
 				// region re-check: is the finding still present on this path?
 				v.Regions = append(v.Regions, &Obligation{Name: name, Func: fc.Key, Label: c.Label, Kind: "known_region", Path: i,
 					Hyps: append(append([]*Term(nil), hyps...), ex2), Goal: Not(goal), WantSat: true, Notes: []string{kf.What}, Trace: ob.Trace})
